@@ -309,38 +309,52 @@ class Abs:
         return body
 
     def flat_props(self, schema, seen=()):
-        """name -> primitive type signature of the properties a (raw) object schema ends up with; None = not a plain primitive"""
+        """name -> declared schema object of the properties a component object schema ends up with (allOf parents first)"""
+        oai = self.oai
         out = {}
-        def sig(s):
-            if not isinstance(s, dict) or "$ref" in s or s.get("enum") or "const" in s or any(k in s for k in ("anyOf", "oneOf", "allOf")):
-                return None
-            t = s.get("type")
-            if t in ("string",) and not s.get("format"):
-                return "string"
-            if t in ("integer", "number", "boolean"):
-                return t
-            return None
-        for m in schema.get("allOf", []) or []:
-            if isinstance(m, dict) and "$ref" in m:
-                tn = m["$ref"].split("/")[-1]
-                if tn in self.raw and tn not in seen and isinstance(self.raw[tn], dict):
-                    out.update(self.flat_props(self.raw[tn], seen + (tn,)))
-            elif isinstance(m, dict):
-                for k, v in (m.get("properties") or {}).items():
-                    out[k] = sig(v)
-        for k, v in (schema.get("properties") or {}).items():
-            out[k] = sig(v)
+        if not isinstance(schema, oai.Schema):
+            return out
+        for m in schema.allOf:
+            if isinstance(m, oai.Reference):
+                rp = local_fragment(m.ref)
+                tn = rp.split("/")[-1] if rp else None
+                if rp and rp.startswith(PREFIX) and tn in self.schemas and tn not in seen:
+                    out.update(self.flat_props(self.schemas[tn], seen + (tn,)))
+            else:
+                out.update(m.properties or {})
+        out.update(schema.properties or {})
         return out
 
-    def sig_obj(self, v):
+    def leafish(self, v):
+        """a schema without references and without model classes: its Property can be built by the real code on an empty Schemas"""
         oai = self.oai
-        if not isinstance(v, oai.Schema) or v.enum or v.const is not None or v.anyOf or v.oneOf or v.allOf or isinstance(v.type, list):
+        if not isinstance(v, oai.Schema) or v.allOf or v.properties or v.type == oai.DataType.OBJECT:
+            return False
+        if not all(self.leafish(m) for m in list(v.anyOf) + list(v.oneOf) + list(v.prefixItems or [])):
+            return False
+        if v.items is not None and not self.leafish(v.items):
+            return False
+        return True
+
+    def leaf_prop(self, key, v, class_name):
+        """the real Property object of a leafish declaration (None when it is not leafish or does not build)"""
+        from openapi_python_client.parser.properties import Schemas, property_from_data
+        from openapi_python_client.parser.errors import PropertyError
+        if isinstance(v, self.oai.Reference):
+            # a reference to a component that is itself free of references and model classes (an enum, a scalar, a list of scalars):
+            # _property_from_ref hands out a copy of that component's Property
+            rp = local_fragment(v.ref)
+            tn = rp.split("/")[-1] if rp else None
+            if not (rp and rp.startswith(PREFIX) and tn in self.schemas and self.leafish(self.schemas[tn])):
+                return None
+            v, class_name = self.schemas[tn], ""
+        if not self.leafish(v):
             return None
-        if v.type == oai.DataType.STRING and not v.schema_format:
-            return "string"
-        if v.type in (oai.DataType.INTEGER, oai.DataType.NUMBER, oai.DataType.BOOLEAN):
-            return v.type.value
-        return None
+        try:
+            p, _ = property_from_data(name=key, required=False, data=v.model_copy(deep=True), schemas=Schemas(), parent_name=class_name, config=self.config)
+        except Exception:  # noqa
+            return None
+        return None if isinstance(p, PropertyError) else p
 
     def body(self, data, class_name, ctx, prog):
         """mirror of _process_properties + _get_additional_properties (model_property.py)"""
@@ -349,18 +363,30 @@ class Abs:
         from openapi_python_client.parser.properties.schemas import parse_reference_path
         from openapi_python_client.parser.errors import ParseError
         unprocessed = list(data.properties.items()) if data.properties else []
-        seen_sig = {}      # property name -> primitive signature, in merge order
+        seen_sig = {}      # property name -> the real Property of the declarations merged so far (None: not decidable here)
 
-        def conflict(k, s):
-            """primitive type clash between two declarations of one property (merge_properties would return an error)"""
+        def conflict(k, v):
+            """would _add_if_no_conflict's merge_properties reject this second declaration of property k?  Decided with the REAL
+            merge_properties on the real Property objects when both declarations are free of references and model classes"""
+            from openapi_python_client.parser.properties.merge_properties import merge_properties
+            from openapi_python_client.parser.errors import PropertyError
+            new = self.leaf_prop(k, v, class_name)
             if k in seen_sig:
-                a, b = seen_sig[k], s
-                if a is None or b is None:
-                    self.imprecise.append(f"property {k} of {class_name} is declared twice with a non-primitive schema")
+                old = seen_sig[k]
+                if old is None or new is None:
+                    self.imprecise.append(f"property {k} of {class_name} is declared twice with a schema that holds references or classes")
+                    seen_sig[k] = None
                     return False
-                if a != b and {a, b} != {"integer", "number"}:
+                try:
+                    merged = merge_properties(copy.deepcopy(old), copy.deepcopy(new))
+                except Exception:  # noqa
+                    self.imprecise.append(f"merge of property {k} of {class_name} raises")
+                    return False
+                if isinstance(merged, PropertyError):
                     return True
-            seen_sig[k] = s
+                seen_sig[k] = merged
+                return False
+            seen_sig[k] = new
             return False
 
         for sp in data.allOf:
@@ -373,8 +399,8 @@ class Abs:
                 recur = ctx.ovr == 0 and ctx.top_cls is not None and sp.ref.endswith(f"/{ctx.top_cls}")
                 tn = rp.split("/")[-1]
                 clash = False
-                if rp.startswith(PREFIX) and tn in self.raw and isinstance(self.raw[tn], dict):
-                    for k, s in self.flat_props(self.raw[tn], (tn,)).items():
+                if rp.startswith(PREFIX) and tn in self.schemas:
+                    for k, s in self.flat_props(self.schemas[tn], (tn,)).items():
                         clash = conflict(k, s) or clash
                 if clash:
                     # the parent must be there and processed for the merge to be attempted; nothing is recorded on failure
@@ -387,8 +413,7 @@ class Abs:
         pynames = {}
         for key, value in unprocessed:
             self.walk(key, value, ctx.evolve(kind="prop"), class_name, prog)
-            s = self.sig_obj(value)
-            if conflict(key, s):
+            if conflict(key, value):
                 self.emit(prog, ("fail", CAT["intrinsic"]), ctx)
                 return
             pn = str(utils.PythonIdentifier(value=utils.remove_string_escapes(key), prefix=self.config.field_prefix))
